@@ -151,7 +151,8 @@ def gen(tier, seed):
             for i2, d in enumerate(nd.decls):
                 if d.typ in ('int', 'float', 'bool', 'str') and rng.random() < 0.2:
                     pfs.append('%s:%d' % (nd.loc, i2))
-        bodies = [[nd.loc, depth] for nd, depth in rng.sample(nodes, min(4, len(nodes)))]
+        # (locator, depth of the instance, indentation asked of cfg_print_indent: its own depth, or far deeper)
+        bodies = [[nd.loc, depth, depth if rng.random() < 0.6 else depth + rng.choice([1, 7, 29, 31, 32, 33, 60, 200])] for nd, depth in rng.sample(nodes, min(4, len(nodes)))]
         # function options print nothing unless they carry a print callback; then one line at the section's depth
         fpfs = []
         for nd, depth in nodes:
@@ -192,12 +193,12 @@ def script(spec):
     lines.append('print 0')
     fl = {l: m for l, s, m in spec['filters']}
     slots = {l: s for l, s, m in spec['filters']}
-    for loc, depth in spec['bodies']:
+    for loc, depth, indent in spec['bodies']:
         eff = eff_of(loc, fl)
         lines.append('note body')
         if eff is not None:
             lines.append('set_filter %s 7 %d' % (loc, eff))
-        lines.append('print_indent %s %d' % (loc, depth))
+        lines.append('print_indent %s %d' % (loc, indent))
         if loc in slots:
             lines.append('set_filter %s %d %d' % (loc, slots[loc], fl[loc]))
         else:
@@ -270,7 +271,7 @@ def judge(spec, events, death):
         return v
     # (3) section bodies equal cfg_print_indent of the instance under the effective filter
     recs, lines, pair, _ = results['filtered']
-    for (loc, depth), body in zip(spec['bodies'], bodies):
+    for (loc, depth, indent), body in zip(spec['bodies'], bodies):
         if body is None:
             continue
         if loc == '0':
@@ -281,6 +282,11 @@ def judge(spec, events, death):
                 continue          # the section itself is filtered out (or an ancestor is)
             want = '\n'.join(lines[g['line'] + 1:g['endline']])
             want = want + '\n' if want else ''
+        if indent != depth:
+            # asked for a deeper indentation: every line moves right by two blanks per extra level (the generated values hold no newlines)
+            pad = '  ' * (indent - depth)
+            want = ''.join(pad + l + '\n' for l in want.split('\n')[:-1])
+            v.notes['bodies_at_other_indent'] = v.notes.get('bodies_at_other_indent', 0) + 1
         v.notes['bodies_compared'] = v.notes.get('bodies_compared', 0) + 1
         if body != want:
             v.bad('body-differs:%s' % ('own-filter' if loc in filters else 'inherited' if eff_of(loc, filters) is not None else 'nofilter'),
